@@ -1,5 +1,7 @@
 //! Oracles: what a run must satisfy, alone or against the reference run of its group.
 
+use std::collections::BTreeMap;
+
 use serde::{Deserialize, Serialize};
 
 use crate::exec::ExecRecord;
@@ -202,5 +204,101 @@ pub fn c02_producers(reference: &ExecRecord, rec: &ExecRecord) -> Vec<Violation>
             }
         }
     }
+    out
+}
+
+/// C15: whatever the input and whatever fails, the run ends, within bounds, in exactly one of
+/// "success and a readable font" or "a diagnostic, failure, and no font".
+pub fn c15(plan: &crate::plan::Plan, rec: &ExecRecord) -> Vec<Violation> {
+    let mut out = Vec::new();
+    let mut push = |class: &str, detail: String| {
+        out.push(Violation { property: "C15".into(), class: class.into(), detail });
+    };
+    let injected: u64 = rec.faults_fired.iter().filter(|(k, _)| k.starts_with("job-")).map(|(_, v)| *v).sum();
+    match rec.outcome.class.as_str() {
+        "signal" => push("killed", format!("the process died: {}", rec.outcome.detail)),
+        "cpu-exhausted" => push("hang", format!("no result within {} s of CPU time: {}", crate::child::CPU_LIMIT_S, rec.outcome.detail)),
+        "deadlock" => push("deadlock", trunc(&rec.outcome.detail, 300)),
+        "steps-exhausted" => push("hang", trunc(&rec.outcome.detail, 300)),
+        "ok" => {
+            if injected > 0 {
+                push("ok-after-injected-failure", format!("success reported although {:?} fired", rec.fault_log));
+            }
+            match rec.font_ok {
+                Some(true) => {}
+                Some(false) => push("ok-without-font", "success reported but the output is not a readable sfnt".into()),
+                None => push("ok-without-font", "success reported but no output file exists".into()),
+            }
+        }
+        "err" | "panic" => {
+            if rec.outcome.detail.trim().is_empty() {
+                push("empty-diagnostic", format!("{} without a message", rec.outcome.class));
+            }
+            if !plan.options.emit_ir && rec.font_len > 0 && !rec.out_existed_before {
+                push("err-with-font", format!("failure reported ({}) but {} bytes were written to the output file", trunc(&rec.outcome.detail, 120), rec.font_len));
+            }
+        }
+        _ => {}
+    }
+    out
+}
+
+/// C14: IR emission changes nothing about the font (T), everything persisted reads back
+/// equal (R), and no two items share a file (P).
+pub fn c14(reference: &ExecRecord, rec: &ExecRecord) -> Vec<Violation> {
+    let mut out = Vec::new();
+    // T: reference is the same source and options without --emit-ir
+    if reference.outcome.class == "ok" {
+        if rec.outcome.class != "ok" {
+            out.push(Violation {
+                property: "C14".into(),
+                class: "ir-changes-outcome".into(),
+                detail: format!("builds without --emit-ir, with it ended {}: {}", rec.outcome.class, trunc(&rec.outcome.detail, 300)),
+            });
+        } else {
+            for v in c01(reference, rec) {
+                out.push(Violation { property: "C14".into(), class: "ir-changes-font".into(), detail: v.detail });
+            }
+        }
+    }
+    // R1
+    for (item, equal, why) in &rec.readbacks {
+        if *equal == Some(false) && !item.contains("ExtraFeaTables") {
+            out.push(Violation {
+                property: "C14".into(),
+                class: "readback-differs".into(),
+                detail: format!("{item} read back from its file is not equal to the value that was written ({why})"),
+            });
+        }
+    }
+    // P
+    let mut owner: BTreeMap<String, String> = BTreeMap::new();
+    let mut folded: BTreeMap<String, (String, String)> = BTreeMap::new();
+    for op in rec.storage.iter().filter(|o| o.op == "open-write") {
+        match owner.get(&op.path) {
+            Some(prev) if prev != &op.id => out.push(Violation {
+                property: "C14".into(),
+                class: "path-shared".into(),
+                detail: format!("{} and {} are both written to {}", prev, op.id, op.path),
+            }),
+            Some(_) => {}
+            None => {
+                owner.insert(op.path.clone(), op.id.clone());
+            }
+        }
+        let f = op.path.to_lowercase();
+        match folded.get(&f) {
+            Some((prev_id, prev_path)) if prev_id != &op.id && prev_path != &op.path => out.push(Violation {
+                property: "C14".into(),
+                class: "path-shared".into(),
+                detail: format!("{} ({}) and {} ({}) collide on a case-insensitive volume", prev_id, prev_path, op.id, op.path),
+            }),
+            Some(_) => {}
+            None => {
+                folded.insert(f, (op.id.clone(), op.path.clone()));
+            }
+        }
+    }
+    out.truncate(6);
     out
 }
